@@ -29,12 +29,6 @@ func toolPrintResult(ctx context.Context, expectedPCR0 tpm.Digest, commandLog tp
 
 const siteTool = "cmd/exp/pcr0tool/commands/sum/command.go: printReproducePCR0Result"
 
-// the two open findings about the tool's way of applying a result (KNOWN_FINDINGS.json)
-const (
-	findToolRegister = "C03-tool-replay-ignores-register"
-	findToolSwaps    = "C03-tool-replay-swap-indices"
-)
-
 type toolObs struct {
 	ran     bool
 	verdict string // ok | mismatch | silent | panic
@@ -105,9 +99,11 @@ func (t toolObs) tail() string {
 
 // Oracle for the consumer, from the property text: a result that is sound (the
 // independent replay gave the requested PCR0) must also replay to the requested PCR0
-// the way the repository itself applies a result to the command log.  The two ways in
-// which it is known not to (open findings) are recognised by their signature; anything
-// else is a failure.
+// the way the repository itself applies a result to the command log -- corrected
+// ACM_POLICY_STATUS, order swaps counted over the PCR0 measurements of the log including
+// the disabled ones, disabled measurements, the log's own TPMInit or the reported
+// locality (findings C03-tool-replay-swap-indices and C03-tool-replay-ignores-register,
+// repaired by /repo 00d338a and 84ad407: either behaviour coming back is a failure).
 func (h *runner) toolOracle(idx int, sc scenario, ents []ent, o observed, t toolObs, d map[string]interface{}) {
 	c := h.c
 	c.Count("tool/" + t.verdict)
@@ -116,51 +112,10 @@ func (h *runner) toolOracle(idx int, sc scenario, ents []ent, o observed, t tool
 		return
 	}
 	d["pcr0tool_output_tail"] = t.tail()
-	// signature 1: the reported register differs from the one the recorded PCR0_DATA digest was computed with
-	regCorrected := false
-	dis := map[int]bool{}
-	for _, p := range o.disabled {
-		dis[p] = true
-	}
-	for _, e := range ents {
-		if dis[e.pos] {
-			continue
-		}
-		if o.hasReg && e.isData && !bytes.Equal(dataDigest(sc.alg, e.raw, o.reg), e.dig) {
-			regCorrected = true
-		}
-		break
-	}
-	// signature 2: swaps together with disabled measurements, or with a log that starts with
-	// TPMInit(reported locality) (that entry becomes element 0 of the list the swaps are applied to)
-	initKept := false
-	if len(sc.log) > 0 {
-		if ci, ok := sc.log[0].Command.(*tpm.CommandInit); ok && ci.Locality == o.loc {
-			initKept = true
-		}
-	}
-	swapShift := len(o.swaps) > 0 && (len(o.disabled) > 0 || initKept)
-	what := fmt.Sprintf("the result is sound (independent replay gives the requested PCR0) but pcr0tool's own application of it to the command log does not reproduce the requested PCR0: %s", t.verdict)
-	switch {
-	case regCorrected:
-		h.known(idx, findToolRegister, what+" (the corrected ACM_POLICY_STATUS is printed but the PCR0_DATA digest is replayed as recorded)", d)
-	case swapShift:
-		h.known(idx, findToolSwaps, what+" (OrderSwaps index the PCR0 measurements of the log including the disabled ones; the tool applies them after removing the disabled ones and with the log's TPMInit as element 0)", d)
-	default:
-		c.OracleFail(idx, what, siteTool, d)
-	}
-}
-
-// at most three recorded inputs per known finding; the rest is counted
-func (h *runner) known(idx int, id, what string, d map[string]interface{}) {
-	h.c.Count("tool-known/" + id)
-	if h.knownSeen == nil {
-		h.knownSeen = map[string]int{}
-	}
-	h.knownSeen[id]++
-	if h.knownSeen[id] <= 3 {
-		h.c.OracleFailKnown(idx, id, what, siteTool, d)
-	} else {
-		h.c.Rep.OracleChecks++
-	}
+	said := map[string]string{
+		"mismatch": "it prints 'internal error: replayed PCR0 does not match the expected one; the information above could not be trusted'",
+		"panic":    "it panics",
+		"silent":   "it prints no verdict (the replay failed, the error is only logged)",
+	}[t.verdict]
+	c.OracleFail(idx, fmt.Sprintf("the result is sound (independent replay gives the requested PCR0) but pcr0tool's own application of it to the command log does not reproduce the requested PCR0: %s", said), siteTool, d)
 }
